@@ -218,12 +218,16 @@ def r4_only_symbol_not_defined_defers(ctx: Ctx) -> None:
             ctx.check(not any(isinstance(s_, (ast.Continue, ast.Return, ast.Break)) for s_ in h.body), f"generate_macro_application:handler-keeps {unparse(h.type)}",
                       "the handler does not leave the loop body early (the deferred argument is still recorded: see aligned-list)")
     # the None marker leads to a SymbolNode for the same position
-    marker_if = [s for s in walk_no_nested(fn.node) if isinstance(s, ast.If) and "is not None" in unparse(s.test)]
+    # (any layout: the SymbolNode construction is reached exactly when the evaluated value `is None`)
+    from ..cfg import CFG as _CFG9
+
+    g9 = _CFG9(fn.node)
     ok = False
-    for s in marker_if:
-        other = s.orelse
-        if any(call_name(c) == "SymbolNode" for o in other for c in calls_in(o)):
-            ok = True
+    for c in calls_in(fn.node):
+        if call_name(c) == "SymbolNode":
+            conds = g9.path_conditions(g9.node_containing(c), fn.node, keep=["evaluated"])
+            if any(t_.endswith(" is None") and pol for t_, pol in conds):
+                ok = True
     ctx.check(ok, "generate_macro_application:deferred-becomes-SymbolNode", "a deferred position produces a SymbolNode bound at label resolution")
     ctx.floor("handlers", 1)
 
